@@ -24,7 +24,9 @@ Hypothesis Hmr : midcheck = true \/ recheck = true.
 
 Local Notation state := (state data).
 Local Notation inv := (inv data zero lock).
-Local Notation step := (step data lock midcheck true recheck).
+Local Notation step := (step data lock midcheck true recheck true).
+Local Notation verify := (verify data true).
+Local Notation do_sync := (do_sync data lock true).
 
 (** everything of the live generation is replicated (or nothing was ever replicated) *)
 Definition at_end (s : state) : Prop :=
@@ -89,27 +91,38 @@ Definition post_mode (p : pcT) : option mode := match p with PPost m _ _ _ => So
 (** a WAL reset in this control state is harmless *)
 Definition freeb (p : pcT) : bool := frfreeb p || (recheck && (postpendb p || ispostb p)).
 
+(** a session re-opened over existing level-0 files still holds the read mark it
+    took at Open and is outside the checkpoint protocol: nothing is known about
+    where its cursor stands *)
+Definition weakb (s : state) : bool := idleish (pc data s) && openmark data s.
+(** a lost cursor that the fresh-session rule (3b58009) turns into a snapshot *)
+Definition freshlostb (s : state) : bool :=
+  idleish (pc data s) && (lastoff data s =? 0) && negb (cgen data s =? gen data s).
+
 Record safe (s : state) : Prop := mkSafe {
   s_K : wlock data s = false -> mark_low (ls_mark data s) = true ->
         backfilled data s = length (txs data s) ->
-        at_end s \/ pendingb (pc data s) = true \/ closedb (pc data s) = true \/
-        freeb (pc data s) = true \/ postpendb (pc data s) = true;
+        at_end s \/ pendingb (pc data s) = true \/ opened data s = false \/
+        freeb (pc data s) = true \/ postpendb (pc data s) || weakb s = true;
   s_S : sealedb (pc data s) = true -> wlock data s = true /\ at_end s;
   s_W : lockedb (pc data s) = true -> wlock data s = true;
   s_L : cur data s = Lost ->
-        l0 data s = [] \/ pendingb (pc data s) = true \/ closedb (pc data s) = true \/
+        l0 data s = [] \/ pendingb (pc data s) = true \/ freshlostb s = true \/
         lost_okb (pc data s) (gen data s) = true;
   s_T : forall hg, hg_of (pc data s) = Some hg ->
         hg <= gen data s /\ (post_truncb (pc data s) = true -> hg < gen data s) /\
         (rb_of (pc data s) = true -> hg < gen data s);
-  s_O : opened data s = false -> l0 data s = [];
+  s_O : opened data s = false ->
+        lastoff data s = 0 /\ ls_mark data s = None /\ wlock data s = false;
   s_N : ls_mark data s = None ->
-        opened data s = false \/ relb (pc data s) = true \/ closedb (pc data s) = true;
+        opened data s = false \/ relb (pc data s) = true;
   s_P : opened data s = false -> pc data s = Idle;
   s_F : forall m, post_mode (pc data s) = Some m -> frb m = true;
   s_Q : ispostb (pc data s) = true -> forall hg, hg_of (pc data s) = Some hg -> gen data s = hg ->
         wlock data s = false -> mark_low (ls_mark data s) = true ->
-        backfilled data s = length (txs data s) -> at_end s }.
+        backfilled data s = length (txs data s) -> at_end s;
+  s_G : cgen data s <= gen data s;
+  s_Z : lastoff data s = 0 -> flag data s = false }.
 
 Lemma flen_firstn_le (ts : list (tx data)) c : flen data (firstn c ts) <= flen data ts.
 Proof.
@@ -127,7 +140,7 @@ Qed.
 (** ** verifyAndSync *)
 
 Lemma do_sync_frame s k s' :
-  do_sync data lock s k = Some s' ->
+  do_sync s k = Some s' ->
   txs data s' = txs data s /\ backfilled data s' = backfilled data s /\
   ls_mark data s' = ls_mark data s /\ wlock data s' = wlock data s /\
   pc data s' = pc data s /\ opened data s' = opened data s /\ gen data s' = gen data s /\
@@ -147,7 +160,7 @@ Proof.
     - intros E. inversion E; subst. destruct cl; cbn; rewrite ?Eo; repeat split; auto.
     - intros E. inversion E; subst. cbn. rewrite Eo. repeat split; auto.
       intros _ E2. destruct (l0 data s); discriminate. }
-  destruct (verify data s).
+  destruct (verify s).
   - intros E. inversion E; subst. cbn. rewrite Eo. repeat split; auto.
     intros _ E2. destruct (l0 data s); discriminate.
   - destruct (idx data (txs data s) (cfo data s)); [|discriminate]. apply G.
@@ -155,22 +168,22 @@ Proof.
 Qed.
 
 
-Lemma do_sync_l0 s k s' : do_sync data lock s k = Some s' -> l0 data s' <> [].
+Lemma do_sync_l0 s k s' : do_sync s k = Some s' -> l0 data s' <> [].
 Proof.
   intros E. destruct (do_sync_frame _ _ _ E) as [_ [_ [_ [_ [_ [_ [_ [_ F]]]]]]]].
   revert E. unfold do_sync. destruct (negb (opened data s)); [discriminate|].
   destruct (phys data s); [discriminate|].
-  destruct (verify data s) as [| |cl] eqn:Ev.
+  destruct (verify s) as [| |cl] eqn:Ev.
   - intros E. inversion E; subst. cbn. intros A. destruct (l0 data s); discriminate.
-  - intros _. apply F. apply (verify_incrat _ _ Ev).
-  - intros _. apply F. apply (verify_incrhdr _ _ _ Ev).
+  - intros _. apply F. apply (verify_incrat _ _ _ Ev).
+  - intros _. apply F. apply (verify_incrhdr _ _ _ _ Ev).
 Qed.
 
 Lemma do_sync_cur s k s' :
-  inv s -> do_sync data lock s k = Some s' ->
+  inv s -> do_sync s k = Some s' ->
   (at_end s -> at_end s') /\
-  (cur data s' = Lost -> cur data s = Lost /\ l0 data s <> []) /\
-  (toend data s = true -> (cur data s = Lost -> l0 data s = []) ->
+  (cur data s' = Lost -> cur data s = Lost /\ verify s <> VSnap) /\
+  (toend data s = true -> (cur data s = Lost -> verify s = VSnap) ->
    cur data s' = AtLive (length (txs data s))).
 Proof.
   intros H. unfold do_sync, at_end.
@@ -181,10 +194,10 @@ Proof.
   assert (Hnonempty : Forall (fun t => t <> []) (txs data s))
     by (eapply txs_ok_nonempty; apply (i_txs _ _ _ _ H)).
   pose proof (i_cur _ _ _ _ H) as Hc. unfold cur_inv in Hc.
-  destruct (verify data s) as [| |cl] eqn:Ev.
+  destruct (verify s) as [| |cl] eqn:Ev.
   - intros E. inversion E; subst. cbn.
     split; [auto|]. split; [discriminate|auto].
-  - destruct (verify_incrat _ _ Ev) as [Hl Hg].
+  - destruct (verify_incrat _ _ _ Ev) as [Hl Hg].
     destruct (idx data (txs data s) (cfo data s)) as [c|] eqn:Ei; [|discriminate].
     assert (Hlive : forall c', cur data s = AtLive c' -> c' = c).
     { intros c' Ec. rewrite Ec in Hc. destruct Hc as [Hle [_ [Hcfo _]]].
@@ -199,11 +212,11 @@ Proof.
       apply Nat.eqb_eq in Eend.
       destruct (k =? 0) eqn:Ek.
       * apply Nat.eqb_eq in Ek. intros E. inversion E; subst s'. clear E.
-        split; [auto|]. split; [auto|]. intros _ HL.
+        split; [auto|]. split; [intros A0; split; [exact A0|discriminate]|]. intros _ HL.
         destruct (cur data s) as [c'| |] eqn:Ec.
         -- rewrite (Hlive c' eq_refl). f_equal. lia.
         -- contradiction.
-        -- exfalso. apply Hl. apply HL. reflexivity.
+        -- specialize (HL eq_refl). discriminate.
       * apply Nat.eqb_neq in Ek. intros E. inversion E; subst s'. clear E.
         cbn.
         destruct (cur data s) as [c'| |] eqn:Ec.
@@ -211,10 +224,10 @@ Proof.
            split; [discriminate|]. intros _ _. f_equal. exact Eend.
         -- contradiction.
         -- split; [intros [A|[A|[A _]]]; [contradiction|discriminate|discriminate]|].
-           split; [auto|]. intros _ HL. exfalso. apply Hl. apply HL. reflexivity.
+           split; [intros A0; split; [exact A0|discriminate]|]. intros _ HL. specialize (HL eq_refl). discriminate.
     + destruct (k =? 0) eqn:Ek.
       * intros E. inversion E; subst s'. clear E.
-        split; [auto|]. split; [auto|]. intros A. discriminate.
+        split; [auto|]. split; [intros A0; split; [exact A0|discriminate]|]. intros A. discriminate.
       * apply Nat.eqb_neq in Ek. intros E. inversion E; subst s'. clear E.
         cbn.
         destruct (cur data s) as [c'| |] eqn:Ec.
@@ -224,8 +237,8 @@ Proof.
            ++ split; [discriminate|]. intros A. discriminate.
         -- contradiction.
         -- split; [intros [A|[A|[A _]]]; [contradiction|discriminate|discriminate]|].
-           split; [auto|]. intros A. discriminate.
-  - destruct (verify_incrhdr _ _ _ Ev) as [Hl Hg].
+           split; [intros A0; split; [exact A0|discriminate]|]. intros A. discriminate.
+  - destruct (verify_incrhdr _ _ _ _ Ev) as [Hl Hg].
     assert (Hnl : forall c', cur data s <> AtLive c').
     { intros c' Ec. rewrite Ec in Hc. destruct Hc as [Hle [Hgg [Hcfo _]]].
       destruct Hg as [Hg|Hg]; [|contradiction].
@@ -244,21 +257,21 @@ Proof.
         -- split; [intros _; right; left; f_equal; exact Eend|].
            split; [discriminate|]. intros _ _. f_equal. exact Eend.
         -- split; [intros [A|[A|[A _]]]; [contradiction|discriminate|discriminate]|].
-           split; [auto|]. intros _ HL. exfalso. apply Hl. apply HL. reflexivity.
+           split; [intros A0; split; [exact A0|discriminate]|]. intros _ HL. specialize (HL eq_refl). discriminate.
     + destruct (k =? 0) eqn:Ek.
       * intros E. inversion E; subst s'. clear E.
         assert (Hsame : at_end s -> at_end (if cl then set_flag data s false else s))
           by (destruct cl; auto).
         assert (Hcur : cur data (if cl then set_flag data s false else s) = cur data s)
           by (destruct cl; reflexivity).
-        split; [exact Hsame|]. rewrite Hcur. split; [auto|]. intros A. discriminate.
+        split; [exact Hsame|]. rewrite Hcur. split; [intros A0; split; [exact A0|discriminate]|]. intros A. discriminate.
       * intros E. inversion E; subst s'. clear E. cbn.
         destruct (cur data s) as [c'| |] eqn:Ec.
         -- exfalso. eapply Hnl; eauto.
         -- split; [intros [A|[A|[_ A]]]; [contradiction|discriminate|contradiction]|].
            split; [discriminate|]. intros A. discriminate.
         -- split; [intros [A|[A|[A _]]]; [contradiction|discriminate|discriminate]|].
-           split; [auto|]. intros A. discriminate.
+           split; [intros A0; split; [exact A0|discriminate]|]. intros A. discriminate.
 Qed.
 
 (** ** commits *)
@@ -272,11 +285,13 @@ Lemma do_commit_facts s t r s' :
   backfilled data s' < length (txs data s') /\
   ls_mark data s' = ls_mark data s /\ pc data s' = pc data s /\
   opened data s' = opened data s /\ l0 data s' = l0 data s /\
+  ss data s' = ss data s /\ cgen data s' = cgen data s /\
   ((r = false /\ gen data s' = gen data s /\ cur data s' = cur data s) \/
    (r = true /\ gen data s' = S (gen data s) /\
     (cur data s' = Lost ->
-     l0 data s = [] \/ pendingb (pc data s) = true \/ closedb (pc data s) = true \/
-     freeb (pc data s) = true \/ postpendb (pc data s) = true))).
+     l0 data s = [] \/ pendingb (pc data s) = true \/ opened data s = false \/
+     freeb (pc data s) = true \/ postpendb (pc data s) = true \/
+     (weakb s = true /\ cur_reset (cur data s) (length (txs data s)) = Lost /\ 0 < length (txs data s))))).
 Proof.
   intros H Hs. unfold do_commit.
   destruct (wlock data s) eqn:Ew; [discriminate|].
@@ -290,11 +305,12 @@ Proof.
     intros E. inversion E; subst s'. clear E. cbn.
     repeat split; auto.
     right. split; [reflexivity|]. split; [reflexivity|]. intros HL.
-    destruct (s_K _ Hs Ew Eml Ebf) as [A|A]; [|right; exact A].
-    destruct A as [A|[A|[_ A]]].
-    + left. exact A.
-    + rewrite A in HL. cbn in HL. rewrite Nat.eqb_refl in HL. discriminate.
-    + rewrite A in Epos. cbn in Epos. lia.
+    destruct (s_K _ Hs Ew Eml Ebf) as [A|[A|[A|[A|A]]]]; auto 6.
+    + destruct A as [A|[A|[_ A]]].
+      * left. exact A.
+      * rewrite A in HL. cbn in HL. rewrite Nat.eqb_refl in HL. discriminate.
+      * rewrite A in Epos. cbn in Epos. lia.
+    + apply orb_prop in A. destruct A as [A|A]; auto 8.
   - intros E. inversion E; subst s'. clear E. cbn. rewrite app_length. cbn.
     repeat split; auto; try lia.
 Qed.
@@ -326,46 +342,111 @@ Proof.
     apply Nat.ltb_lt in A. eauto.
 Qed.
 
+Lemma cur_reset_lost_live (s : state) :
+  inv s -> cur_reset (cur data s) (length (txs data s)) = Lost -> 0 < length (txs data s) ->
+  cur data s = Lost \/ cgen data s <> gen data s \/ cfo data s <> flen data (txs data s).
+Proof.
+  intros H A Hpos. pose proof (i_cur _ _ _ _ H) as Hc. unfold cur_inv in Hc.
+  destruct (cur data s) as [c| |] eqn:Ec; cbn in A.
+  - destruct (c =? length (txs data s)) eqn:Ecl; [discriminate|]. apply Nat.eqb_neq in Ecl.
+    destruct Hc as [Hle [_ [Hcfo _]]]. right. right. rewrite Hcfo. intros B.
+    apply Ecl. eapply flen_firstn_full; eauto. eapply txs_ok_nonempty. apply (i_txs _ _ _ _ H).
+  - destruct Hc as [Hlt _]. right. left. lia.
+  - left. reflexivity.
+Qed.
+
+Lemma weak_reset_lost s :
+  inv s -> safe s -> weakb s = true -> catching_up data s = false ->
+  cur_reset (cur data s) (length (txs data s)) = Lost ->
+  l0 data s = [] \/ lastoff data s = 0.
+Proof.
+  intros H Hs D1 Hw2 D2. pose proof Hs as [K S W L T O N P F Q G Z].
+  unfold weakb in D1. apply andb_prop in D1. destruct D1 as [Di Dm].
+  assert (HLost : cur data s = Lost -> l0 data s = [] \/ lastoff data s = 0).
+  { intros C. destruct (L C) as [C1|[C1|[C1|C1]]].
+    - left. exact C1.
+    - exfalso. destruct (pc data s); cbn in *; try discriminate; destruct m; discriminate.
+    - unfold freshlostb in C1. apply andb_prop in C1. destruct C1 as [C1 _].
+      apply andb_prop in C1. destruct C1 as [_ C1]. apply Nat.eqb_eq in C1. right. exact C1.
+    - exfalso. destruct (pc data s); cbn in *; discriminate. }
+  destruct (Nat.eq_dec (length (txs data s)) 0) as [E0|E0].
+  - pose proof (i_cur _ _ _ _ H) as Hc. unfold cur_inv in Hc. rewrite E0 in D2.
+    destruct (cur data s) as [c| |] eqn:Ec; cbn in D2.
+    + destruct Hc as [Hle _]. replace c with 0 in D2 by lia. discriminate.
+    + discriminate.
+    + apply HLost. reflexivity.
+  - assert (D3 : 0 < length (txs data s)) by lia.
+    destruct (cur_reset_lost_live s H D2 D3) as [C|C]; [apply HLost; exact C|].
+    right. unfold catching_up in Hw2. rewrite Dm, Di in Hw2. cbn [andb] in Hw2.
+    destruct (lastoff data s) as [|n] eqn:El; [reflexivity|exfalso].
+    assert (X0 : (0 <? Datatypes.S n) = true) by reflexivity.
+    assert (X3 : (0 <? length (txs data s)) = true) by (apply Nat.ltb_lt; exact D3).
+    rewrite X0, X3 in Hw2. cbn [andb] in Hw2. apply negb_false_iff in Hw2. apply andb_prop in Hw2.
+    destruct Hw2 as [X1 X2]. apply Nat.eqb_eq in X1, X2. destruct C; contradiction.
+Qed.
+
 (** ** a commit that leaves the control state alone *)
 Lemma safe_commit_same s t r s1 :
-  inv s -> safe s -> (r = true -> recheck = true \/ postpendb (pc data s) = false) ->
+  inv s -> safe s ->
+  (r = true -> (recheck = true \/ postpendb (pc data s) = false) /\ catching_up data s = false) ->
   do_commit data s t r = Some s1 -> safe s1.
 Proof.
   intros H Hs Hwin E.
-  destruct (do_commit_facts _ _ _ _ H Hs E) as [Hw [Hw' [Hbf [Hm [Hpc [Ho [Hl0 Hd]]]]]]].
-  pose proof Hs as [K S W L T O N P F Q].
+  destruct (do_commit_facts _ _ _ _ H Hs E) as [Hw [Hw' [Hbf [Hm [Hpc [Ho [Hl0 [Hss [Hcg Hd]]]]]]]]].
+  pose proof Hs as [K S W L T O N P F Q G Z].
   assert (Hgen : gen data s <= gen data s1) by (destruct Hd as [[_ [A _]]|[_ [A _]]]; lia).
-  constructor; rewrite ?Hpc, ?Hm, ?Ho, ?Hl0.
+  assert (Hlo : lastoff data s1 = lastoff data s) by (unfold lastoff; rewrite Hss; reflexivity).
+  assert (Hfl : flag data s1 = flag data s) by (unfold flag; rewrite Hss; reflexivity).
+  assert (Hom : openmark data s1 = openmark data s) by (unfold openmark; rewrite Hss; reflexivity).
+  constructor; rewrite ?Hpc, ?Hm, ?Ho, ?Hl0, ?Hlo, ?Hfl, ?Hcg.
   - intros _ _ A. lia.
   - intros A. destruct (S A) as [A2 _]. congruence.
   - intros A. pose proof (W A). congruence.
-  - intros A. destruct Hd as [[_ [B1 B2]]|[Br [B1 B2]]].
+  - intros A. unfold freshlostb. rewrite Hpc, Hlo, Hcg.
+    destruct Hd as [[_ [B1 B2]]|[Br [B1 B2]]].
     + rewrite B1. apply L. congruence.
     + assert (Hlt : forall hg, hg_of (pc data s) = Some hg -> hg < gen data s1).
       { intros hg Hh. destruct (T hg Hh) as [T1 _]. lia. }
-      destruct (B2 A) as [D|[D|[D|[D|D]]]]; auto.
+      assert (Hne : (cgen data s =? gen data s1) = false) by (apply Nat.eqb_neq; lia).
+      destruct (Hwin Br) as [Hw1 Hw2].
+      destruct (B2 A) as [D|[D|[D|[D|[D|[D1 [D2 D3]]]]]]]; auto.
+      * (* closed *)
+        right. right. left. destruct (O D) as [O1 _]. rewrite (P D), O1, Hne. reflexivity.
       * right. right. right. apply lost_ok_intro; assumption.
-      * destruct (Hwin Br) as [Hr|Hn]; [|congruence].
+      * destruct Hw1 as [Hr|Hn]; [|congruence].
         right. right. right. apply lost_ok_intro; [|assumption].
         unfold freeb. rewrite Hr, D. cbn. apply orb_true_r.
+      * (* a re-opened session at Idle: only the fresh-session rule saves it *)
+        assert (Di : idleish (pc data s) = true) by (unfold weakb in D1; apply andb_prop in D1; tauto).
+        destruct (weak_reset_lost s H Hs D1 Hw2 D2) as [C|C]; [left; exact C|].
+        right. right. left. rewrite Di, C, Hne. reflexivity.
   - intros hg A. destruct (T hg A) as [T1 [T2 T3]].
     split; [lia|]. split; intros B; [specialize (T2 B)|specialize (T3 B)]; lia.
-  - exact O.
+  - intros A. destruct (O A) as [O1 [O2 O3]]. auto.
   - exact N.
   - exact P.
   - exact F.
   - intros _ hg _ _ _ _ A. lia.
+  - lia.
+  - exact Z.
 Qed.
 
 (** ** environment steps *)
+
+Lemma window_reset_facts s :
+  (recheck || negb (post_pending true (pc data s))) && negb (catching_up data s) = true ->
+  (recheck = true \/ postpendb (pc data s) = false) /\ catching_up data s = false.
+Proof.
+  intros A. apply andb_prop in A. destruct A as [A B]. apply negb_true_iff in B. split; [|exact B].
+  apply orb_prop in A. destruct A as [A|A]; [left; exact A|right]. apply negb_true_iff in A. exact A.
+Qed.
 
 Lemma safe_AppCommit s t r s' :
   inv s -> safe s -> window_ok data true recheck s (AppCommit data t r) = true ->
   step s (AppCommit data t r) = Some s' -> safe s'.
 Proof.
   intros H Hs Hwin E. cbn in E. apply (safe_commit_same s t r s' H Hs); [|exact E].
-  intros Hr. subst r. cbn in Hwin. apply orb_prop in Hwin. destruct Hwin as [A|A]; [left; exact A|].
-  right. apply negb_true_iff in A. exact A.
+  intros Hr. subst r. cbn in Hwin. apply window_reset_facts. exact Hwin.
 Qed.
 
 Lemma safe_AppCkpt s j sz s' :
@@ -373,24 +454,22 @@ Lemma safe_AppCkpt s j sz s' :
 Proof.
   intros H Hs E. cbn in E.
   destruct (ckpt_allowed data s j) eqn:Ea; [|discriminate]. inversion E; subst s'. clear E.
-  pose proof Hs as [K S W L T O N P F Q].
+  pose proof Hs as [K S W L T O N P F Q G Z].
   unfold ckpt_allowed in Ea. apply andb_prop in Ea. destruct Ea as [_ Ea].
   constructor; cbn; try assumption.
   - intros Hw Hml Hj.
     destruct (ls_mark data s) as [[|m]|] eqn:Em; cbn in Hml; try discriminate.
     + apply Nat.eqb_eq in Ea. apply K; auto. congruence.
-    + destruct (N eq_refl) as [A|[A|A]].
-      * left. left. apply O. exact A.
+    + destruct (N eq_refl) as [A|A].
+      * right. right. left. exact A.
       * destruct (pc data s) as [| | | | |m0 ? ?|m0 ? ? ?| | | | | | | |]; try discriminate;
           destruct m0; cbn in *; auto 6;
           destruct (S eq_refl) as [B _]; congruence.
-      * auto.
   - intros Hi hg Hh Hg Hw Hml Hj.
     destruct (ls_mark data s) as [[|m]|] eqn:Em; cbn in Hml; try discriminate.
     + apply Nat.eqb_eq in Ea. apply (Q Hi hg Hh Hg Hw); [reflexivity|congruence].
-    + exfalso. destruct (N eq_refl) as [A|[A|A]].
+    + exfalso. destruct (N eq_refl) as [A|A].
       * specialize (P A). rewrite P in Hi. discriminate.
-      * destruct (pc data s); discriminate.
       * destruct (pc data s); discriminate.
 Qed.
 
@@ -400,31 +479,40 @@ Lemma safe_AppTruncate s s' :
 Proof.
   intros H Hs Hwin E. cbn in E.
   destruct (reset_enabled data s) eqn:Een; [|discriminate]. inversion E; subst s'. clear E.
-  pose proof Hs as [K S W L T O N P F Q].
-  cbn in Hwin.
+  pose proof Hs as [K S W L T O N P F Q G Z].
+  cbn in Hwin. destruct (window_reset_facts s Hwin) as [Hw1 Hw2].
   unfold reset_enabled in Een. apply andb_prop in Een. destruct Een as [Een Ebf].
   apply andb_prop in Een. destruct Een as [Ew Eml].
   apply negb_true_iff in Ew. apply Nat.eqb_eq in Ebf.
+  assert (Hne : (cgen data s =? Datatypes.S (gen data s)) = false) by (apply Nat.eqb_neq; lia).
+  assert (Hlt : forall hg, hg_of (pc data s) = Some hg -> hg < Datatypes.S (gen data s)).
+  { intros hg Hh. destruct (T hg Hh) as [T1 _]. lia. }
   assert (Hcases : at_end (reset_st data s true) \/ pendingb (pc data s) = true \/
-                   closedb (pc data s) = true \/ freeb (pc data s) = true).
+                   (opened data s = false) \/ freeb (pc data s) = true \/ weakb s = true).
   { destruct (K Ew Eml Ebf) as [A|[A|[A|[A|A]]]]; auto.
     - left. unfold at_end. cbn. destruct A as [A|[A|[A B]]].
       + left. exact A.
       + right. right. rewrite A. cbn. rewrite Nat.eqb_refl. auto.
       + right. right. rewrite A, B. cbn. auto.
-    - apply orb_prop in Hwin. destruct Hwin as [B|B].
-      + right. right. right. unfold freeb. rewrite B, A. cbn. apply orb_true_r.
-      + apply negb_true_iff in B. unfold postpendb in A. congruence. }
+    - apply orb_prop in A. destruct A as [A|A]; [|auto 6].
+      destruct Hw1 as [B|B]; [|congruence].
+      right. right. right. left. unfold freeb. rewrite B, A. cbn. apply orb_true_r. }
   constructor; cbn; try assumption.
-  - intros _ _ _. destruct Hcases as [A|[A|[A|A]]]; auto 6.
+  - intros _ _ _. destruct Hcases as [A|[A|[A|[A|A]]]]; auto 6.
+    right. right. right. right. change (weakb (reset_st data s true)) with (weakb s). rewrite A. apply orb_true_r.
   - intros A. destruct (S A) as [A2 _]. congruence.
-  - intros HL. destruct Hcases as [A|[A|[A|A]]]; auto.
+  - intros HL. unfold freshlostb. cbn. change (lastoff data (reset_st data s true)) with (lastoff data s).
+    destruct Hcases as [A|[A|[A|[A|A]]]]; auto.
     + unfold at_end in A. cbn in A. destruct A as [A|[A|[A _]]]; [left; exact A| |]; congruence.
-    + right. right. right. apply lost_ok_intro; [exact A|].
-      intros hg Hh. destruct (T hg Hh) as [T1 _]. lia.
+    + right. right. left. destruct (O A) as [O1 _]. rewrite (P A), O1, Hne. reflexivity.
+    + right. right. right. apply lost_ok_intro; assumption.
+    + assert (Di : idleish (pc data s) = true) by (unfold weakb in A; apply andb_prop in A; tauto).
+      destruct (weak_reset_lost s H Hs A Hw2 HL) as [C|C]; [left; exact C|].
+      right. right. left. rewrite Di, C, Hne. reflexivity.
   - intros hg A. destruct (T hg A) as [T1 [T2 T3]].
     split; [lia|]. split; intros B; [specialize (T2 B)|specialize (T3 B)]; lia.
   - intros _ hg A B. destruct (T hg A) as [T1 _]. lia.
+  - lia.
 Qed.
 
 (** ** litestream steps *)
@@ -433,6 +521,12 @@ Ltac triv :=
   try assumption; try discriminate; try reflexivity;
   try solve [intros; congruence];
   try solve [intros; discriminate].
+
+Ltac prep :=
+  unfold weakb, freshlostb, lastoff, flag, openmark in *;
+  cbn in *;
+  repeat match goal with E : pc _ _ = _ |- _ => progress (rewrite E in * ) end;
+  cbn in *.
 
 Ltac fin2 :=
   triv;
@@ -445,7 +539,7 @@ Ltac fin2 :=
                destruct (L A) as [?|[?|[?|?]]]; auto 8; discriminate end];
   try solve [let A := fresh in intros A;
              match goal with N : _ = None -> _ |- _ =>
-               destruct (N A) as [?|[?|?]]; auto; discriminate end];
+               destruct (N A) as [?|?]; auto; discriminate end];
   try solve [let hg := fresh in let A := fresh in intros hg A; inversion A; subst;
              match goal with T : forall h, _ = Some h -> _ |- _ =>
                destruct (T _ eq_refl) as [? [? ?]]; repeat split; intros; try discriminate; try lia; auto end];
@@ -453,31 +547,92 @@ Ltac fin2 :=
              match goal with P : _ = false -> _ = Idle |- _ =>
                specialize (P A); first [congruence | discriminate] end].
 
+(** the fresh-session rule of commit 3b58009 *)
+Lemma fresh_verify_snap s :
+  lastoff data s = 0 -> flag data s = false -> cgen data s <> gen data s -> verify s = VSnap.
+Proof.
+  intros Hl Hf Hg. unfold Machine.verify. destruct (l0 data s); [reflexivity|].
+  rewrite Hf, Hl. apply Nat.eqb_neq in Hg. rewrite Hg.
+  destruct (length (phys data s) <? cfo data s); [reflexivity|].
+  destruct (cfo data s =? 0); [reflexivity|]. destruct (cfo data s =? 1); [reflexivity|].
+  destruct (tag_at data (phys data s) (cfo data s - 1)); [|reflexivity].
+  destruct (negb (n =? cgen data s)); reflexivity.
+Qed.
+
+Lemma lost_sync_snap s :
+  safe s -> pendingb (pc data s) = false -> lost_okb (pc data s) (gen data s) = false ->
+  cur data s = Lost -> verify s = VSnap.
+Proof.
+  intros Hs Hp Hl A. pose proof Hs as [K S W L T O N P F Q G Z].
+  destruct (L A) as [B|[B|[B|B]]]; try congruence.
+  - unfold Machine.verify. rewrite B. reflexivity.
+  - unfold freshlostb in B. apply andb_prop in B. destruct B as [B B3].
+    apply andb_prop in B. destruct B as [_ B2]. apply Nat.eqb_eq in B2.
+    apply negb_true_iff in B3. apply Nat.eqb_neq in B3.
+    apply fresh_verify_snap; auto.
+Qed.
+
+Lemma do_sync_sess s k s1 :
+  do_sync s k = Some s1 -> (lastoff data s = 0 -> flag data s = false) -> cgen data s <= gen data s ->
+  openmark data s1 = openmark data s /\ (lastoff data s1 = 0 -> flag data s1 = false) /\
+  cgen data s1 <= gen data s1.
+Proof.
+  intros E Z G. revert E. unfold Machine.do_sync.
+  destruct (negb (opened data s)); [discriminate|].
+  destruct (phys data s) as [|p0 pr] eqn:Ep; [discriminate|].
+  assert (Hw : forall x n c, let s' := write_file data s x n c in
+              openmark data s' = openmark data s /\ (lastoff data s' = 0 -> flag data s' = false) /\
+              cgen data s' <= gen data s').
+  { intros x n c. cbn. unfold lastoff, flag, openmark. cbn. split; [reflexivity|]. split; [|lia].
+    intros A. subst n. rewrite Ep. reflexivity. }
+  assert (Gi : forall c k0 cl nc, incr_st data lock s c k0 cl nc = Some s1 ->
+              openmark data s1 = openmark data s /\ (lastoff data s1 = 0 -> flag data s1 = false) /\
+              cgen data s1 <= gen data s1).
+  { intros c k0 cl nc. unfold incr_st.
+    destruct (negb (c + k0 <=? length (txs data s))); [discriminate|].
+    destruct (toend data s && negb (c + k0 =? length (txs data s))); [discriminate|].
+    destruct (k0 =? 0).
+    - intros E. inversion E; subst. destruct cl; [|auto].
+      unfold set_flag, lastoff, flag, openmark. cbn. auto.
+    - intros E. inversion E; subst. apply Hw. }
+  destruct (verify s).
+  - intros E. inversion E; subst. apply Hw.
+  - destruct (idx data (txs data s) (cfo data s)); [apply Gi|discriminate].
+  - apply Gi.
+Qed.
+
 Lemma safe_sync_gen s k s1 p :
-  inv s -> safe s -> do_sync data lock s k = Some s1 ->
+  inv s -> safe s -> do_sync s k = Some s1 ->
   ((pc data s = Idle /\ p = Idle) \/ (exists m hg, pc data s = PHdr m hg /\ p = PCopied m hg) \/
    (exists hg, pc data s = PLocked hg /\ p = PSealed hg) \/ (pc data s = PRecopy /\ p = Idle)) ->
   safe (set_pc data s1 p).
 Proof.
-  intros H Hs Ed Hp. pose proof Hs as [K S W L T O N P F Q].
+  intros H Hs Ed Hp. pose proof Hs as [K S W L T O N P F Q G Z].
   destruct (do_sync_frame _ _ _ Ed) as [F1 [F2 [F3 [F4 [F5 [F6 [F7 [F8 F9]]]]]]]].
   destruct (do_sync_cur _ _ _ H Ed) as [C1 [C2 C3]].
-  assert (Hcls : pendingb (pc data s) = false /\ closedb (pc data s) = false /\
+  destruct (do_sync_sess _ _ _ Ed Z G) as [M1 [M2 M3]].
+  assert (Hcls : pendingb (pc data s) = false /\
                  freeb (pc data s) = false /\ postpendb (pc data s) = false /\
                  lost_okb (pc data s) (gen data s) = false /\ relb (pc data s) = false).
   { destruct Hp as [[Hp _]|[[m [hg [Hp _]]]|[[hg [Hp _]]|[Hp _]]]];
       rewrite Hp; unfold freeb; cbn -[Nat.ltb]; rewrite ?andb_false_r; auto 10. }
-  destruct Hcls as [Q1 [Q2 [Q3 [Q4 [Q5 Q6]]]]].
-  assert (HnotLost : cur data s = Lost -> l0 data s = []).
-  { intros A. destruct (L A) as [B|[B|[B|B]]]; [exact B|congruence|congruence|congruence]. }
+  destruct Hcls as [Q1 [Q3 [Q4 [Q5 Q6]]]].
+  assert (Hsnap : cur data s = Lost -> verify s = VSnap) by (apply lost_sync_snap; assumption).
   assert (HL1 : cur data s1 <> Lost).
-  { intros A. destruct (C2 A) as [B1 B2]. apply B2. apply HnotLost. exact B1. }
+  { intros A. destruct (C2 A) as [B1 B2]. apply B2. apply Hsnap. exact B1. }
   assert (Hend : toend data s = true -> at_end (set_pc data s1 p)).
   { intros A. unfold at_end. cbn. right. left. rewrite F1. apply C3; assumption. }
   constructor; cbn; rewrite ?F1, ?F2, ?F3, ?F4, ?F6, ?F7.
   - intros Hw Hml Hbf.
     destruct (K Hw Hml Hbf) as [A|[A|[A|[A|A]]]]; try congruence.
-    left. unfold at_end in *. cbn. apply C1. exact A.
+    + left. unfold at_end in *. cbn. apply C1. exact A.
+    + rewrite Q4 in A. cbn in A.
+      destruct Hp as [[Hp Hq]|[[m [hg [Hp Hq]]]|[[hg [Hp Hq]]|[Hp Hq]]]]; subst p.
+      * right. right. right. right. unfold weakb in A. rewrite Hp in A. cbn [idleish andb] in A.
+        change (weakb (set_pc data s1 Idle)) with (openmark data s1). rewrite M1, A. reflexivity.
+      * left. apply Hend. unfold toend. rewrite Hp. cbn. apply orb_true_r.
+      * unfold weakb in A. rewrite Hp in A. discriminate.
+      * unfold weakb in A. rewrite Hp in A. discriminate.
   - intros A.
     destruct Hp as [[Hp Hq]|[[m [hg [Hp Hq]]]|[[hg [Hp Hq]]|[Hp Hq]]]]; subst p; try discriminate.
     assert (Hw : wlock data s = true) by (apply W; rewrite Hp; reflexivity).
@@ -490,30 +645,34 @@ Proof.
       cbn in A; inversion A; subst; destruct (T hg) as [T1 _]; try (rewrite Hp; reflexivity);
       (split; [exact T1|split; discriminate]).
   - rewrite F8. discriminate.
-  - intros A. destruct (N A) as [B|[B|B]]; congruence.
+  - intros A. destruct (N A) as [B|B]; congruence.
   - rewrite F8. discriminate.
   - intros m A.
     destruct Hp as [[Hp Hq]|[[m' [hg' [Hp Hq]]]|[[hg' [Hp Hq]]|[Hp Hq]]]]; subst p; discriminate.
   - intros A.
     destruct Hp as [[Hp Hq]|[[m' [hg' [Hp Hq]]]|[[hg' [Hp Hq]]|[Hp Hq]]]]; subst p; discriminate.
+  - rewrite <- F7. exact M3.
+  - exact M2.
 Qed.
 
 (** the copy of commit 6edd82b *)
 Lemma safe_postcopy s k s1 m hg pre wn :
-  inv s -> safe s -> do_sync data lock s k = Some s1 ->
+  inv s -> safe s -> do_sync s k = Some s1 ->
   pc data s = PMid m hg pre wn false -> frb m = true ->
   safe (set_pc data s1 (PPost m hg pre wn)).
 Proof.
-  intros H Hs Ed Epc Hf. pose proof Hs as [K S W L T O N P F Q].
+  intros H Hs Ed Epc Hf. pose proof Hs as [K S W L T O N P F Q G Z].
   destruct (do_sync_frame _ _ _ Ed) as [F1 [F2 [F3 [F4 [F5 [F6 [F7 [F8 F9]]]]]]]].
   destruct (do_sync_cur _ _ _ H Ed) as [C1 [C2 C3]].
+  destruct (do_sync_sess _ _ _ Ed Z G) as [M1 [M2 M3]].
   rewrite Epc in *.
   destruct (T hg eq_refl) as [T1 _].
   assert (Hpend : pendingb (PMid m hg pre wn false) = false) by (destruct m; try discriminate; reflexivity).
-  assert (Hlost : cur data s = Lost -> l0 data s = [] \/ (recheck = true /\ hg < gen data s)).
-  { intros A. destruct (L A) as [B|[B|[B|B]]]; [auto|congruence|discriminate|].
-    right. cbn -[Nat.ltb] in B. rewrite Hf in B. cbn -[Nat.ltb] in B.
-    apply andb_prop in B. destruct B as [B1 B2]. apply Nat.ltb_lt in B1. auto. }
+  assert (Hlost : cur data s = Lost -> verify s = VSnap \/ (recheck = true /\ hg < gen data s)).
+  { intros A. destruct (L A) as [B|[B|[B|B]]]; [|congruence|unfold freshlostb in B; rewrite Epc in B; discriminate|].
+    - left. unfold Machine.verify. rewrite B. reflexivity.
+    - right. cbn -[Nat.ltb] in B. rewrite Hf in B. cbn -[Nat.ltb] in B.
+      apply andb_prop in B. destruct B as [B1 B2]. apply Nat.ltb_lt in B1. auto. }
   assert (Htoend : toend data s = true) by (unfold toend; rewrite Epc; cbn; apply orb_true_r).
   assert (Hend : (recheck = false \/ gen data s = hg) -> at_end (set_pc data s1 (PPost m hg pre wn))).
   { intros Hc. unfold at_end. cbn. right. left. rewrite F1. apply C3; [exact Htoend|].
@@ -528,10 +687,12 @@ Proof.
     right. right. right. rewrite B3. apply Nat.ltb_lt. exact B4.
   - intros hg' A. inversion A; subst hg'. split; [exact T1|split; discriminate].
   - rewrite F8. discriminate.
-  - intros A. destruct (N A) as [B|[B|B]]; try discriminate. congruence.
+  - intros A. destruct (N A) as [B|B]; try discriminate. congruence.
   - rewrite F8. discriminate.
   - intros m' A. inversion A; subst. exact Hf.
   - intros _ hg' A B _ _ _. inversion A; subst hg'. apply Hend. auto.
+  - rewrite <- F7. exact M3.
+  - exact M2.
 Qed.
 
 Lemma set_pc_self (s : state) : set_pc data s (pc data s) = s.
@@ -544,32 +705,32 @@ Proof.
   destruct (pc data s) as [|m hg|m hg|hg|hg| | |m hg pre wn rb| | | | | | |] eqn:Epc; try discriminate.
   - destruct (do_sync_frame _ _ _ E) as [_ [_ [_ [_ [F5 _]]]]]. rewrite Epc in F5.
     rewrite <- (set_pc_self s'). rewrite F5. eapply safe_sync_gen; eauto.
-  - destruct (do_sync data lock s k) eqn:Ed; [|discriminate]. inversion E; subst s'.
+  - destruct (do_sync s k) eqn:Ed; [|discriminate]. inversion E; subst s'.
     eapply safe_sync_gen; eauto. right. left. eauto.
-  - destruct (do_sync data lock s k) eqn:Ed; [|discriminate]. inversion E; subst s'.
+  - destruct (do_sync s k) eqn:Ed; [|discriminate]. inversion E; subst s'.
     eapply safe_sync_gen; eauto. right. right. left. eauto.
   - destruct (needs_post true m rb) eqn:En; [|discriminate].
-    destruct (do_sync data lock s k) eqn:Ed; [|discriminate]. inversion E; subst s'.
+    destruct (do_sync s k) eqn:Ed; [|discriminate]. inversion E; subst s'.
     unfold needs_post in En. cbn in En. apply andb_prop in En. destruct En as [Hf Hr].
     apply negb_true_iff in Hr. subst rb.
     eapply safe_postcopy; eauto.
-  - destruct (do_sync data lock s k) eqn:Ed; [|discriminate]. inversion E; subst s'.
+  - destruct (do_sync s k) eqn:Ed; [|discriminate]. inversion E; subst s'.
     eapply safe_sync_gen; eauto.
 Qed.
 
 Lemma safe_LsOpen s s' : inv s -> safe s -> step s (LsOpen data) = Some s' -> safe s'.
 Proof.
-  intros H Hs E. cbn in E. pose proof Hs as [K S W L T O N P F Q].
+  intros H Hs E. cbn in E. pose proof Hs as [K S W L T O N P F Q G Z].
   destruct (opened data s) eqn:Eo; [discriminate|]. destruct (pc data s) eqn:Epc; try discriminate.
   inversion E; subst s'. clear E.
-  constructor; cbn; rewrite ?Epc; cbn; triv.
-  - intros _ _ _. left. left. apply O. reflexivity.
+  constructor; unfold freshlostb, weakb, lastoff, flag, openmark in *; cbn; rewrite ?Epc in *; cbn in *; triv.
+  - intros _ _ _. unfold at_end. cbn. destruct (l0 data s); [left; left; reflexivity|]. right. right. right. right. reflexivity.
   - unfold acquire. destruct (backfilled data s =? length (txs data s)); discriminate.
 Qed.
 
 Lemma safe_LsAck s s' : inv s -> safe s -> step s (LsAck data) = Some s' -> safe s'.
 Proof.
-  intros H Hs E. cbn in E. pose proof Hs as [K S W L T O N P F Q].
+  intros H Hs E. cbn in E. pose proof Hs as [K S W L T O N P F Q G Z].
   destruct (pc data s) eqn:Epc; try discriminate. destruct (l0 data s) eqn:El; [discriminate|].
   destruct ((cgen data s =? gen data s) && (cfo data s =? flen data (txs data s))); [|discriminate].
   inversion E; subst s'. clear E.
@@ -578,61 +739,62 @@ Qed.
 
 Lemma safe_LsCkStart s m s' : inv s -> safe s -> step s (LsCkStart data m) = Some s' -> safe s'.
 Proof.
-  intros H Hs E. cbn in E. pose proof Hs as [K S W L T O N P F Q].
+  intros H Hs E. cbn in E. pose proof Hs as [K S W L T O N P F Q G Z].
   destruct (pc data s) eqn:Epc; try discriminate. destruct (phys data s); [discriminate|].
+  destruct (snap data s); [discriminate|].
   destruct (opened data s) eqn:Eo; [|discriminate]. inversion E; subst s'. clear E.
-  constructor; cbn in *; fin2.
+  constructor; prep; fin2.
   intros hg A. inversion A; subst. split; [lia|split; discriminate].
 Qed.
 
 Lemma safe_LsLockWrite s s' : inv s -> safe s -> step s (LsLockWrite data) = Some s' -> safe s'.
 Proof.
-  intros H Hs E. cbn in E. pose proof Hs as [K S W L T O N P F Q].
+  intros H Hs E. cbn in E. pose proof Hs as [K S W L T O N P F Q G Z].
   destruct (pc data s) as [| |m0 hg0| | | | | | | | | |p|p|] eqn:Epc; try discriminate.
   - destruct m0; try discriminate. inversion E; subst s'. clear E.
-    constructor; cbn in *; fin2.
+    constructor; prep; fin2.
   - inversion E; subst s'. clear E.
-    constructor; cbn in *; fin2.
+    constructor; prep; fin2.
 Qed.
 
 Lemma safe_LsRelease s s' : inv s -> safe s -> step s (LsRelease data) = Some s' -> safe s'.
 Proof.
-  intros H Hs E. cbn in E. pose proof Hs as [K S W L T O N P F Q].
+  intros H Hs E. cbn in E. pose proof Hs as [K S W L T O N P F Q G Z].
   destruct (pc data s) as [| |m0 hg0| |hg0| | | | | | | | | |] eqn:Epc; try discriminate.
   - destruct (mode_eqb m0 Passive) eqn:Em; [discriminate|]. inversion E; subst s'. clear E.
-    destruct m0; try discriminate; constructor; cbn in *; fin2.
+    destruct m0; try discriminate; constructor; prep; fin2.
   - inversion E; subst s'. clear E.
-    constructor; cbn in *; fin2.
+    constructor; prep; fin2.
     intros A. destruct (S eq_refl). congruence.
 Qed.
 
 Lemma safe_LsCkpt s j sz s' : inv s -> safe s -> step s (LsCkpt data j sz) = Some s' -> safe s'.
 Proof.
-  intros H Hs E. cbn in E. pose proof Hs as [K S W L T O N P F Q].
+  intros H Hs E. cbn in E. pose proof Hs as [K S W L T O N P F Q G Z].
   destruct (pc data s) as [| | | | |m0 hg0 pre0| | | | | | | | |] eqn:Epc; try discriminate.
   destruct (ls_mark data s) eqn:Em; [discriminate|].
   destruct m0.
   - destruct ((backfilled data s <=? j) && (j <=? length (txs data s))); [|discriminate].
     inversion E; subst s'. clear E. destruct (S eq_refl) as [S1 S2].
-    constructor; cbn in *; rewrite ?Em in *; fin2.
+    constructor; prep; rewrite ?Em in *; fin2.
   - destruct (j =? length (txs data s)) eqn:Ej; [|discriminate]. apply Nat.eqb_eq in Ej.
     inversion E; subst s'. clear E.
-    constructor; cbn in *; rewrite ?Em in *; fin2.
+    constructor; prep; rewrite ?Em in *; fin2.
   - destruct (j =? length (txs data s)) eqn:Ej; [|discriminate]. apply Nat.eqb_eq in Ej.
     inversion E; subst s'. clear E.
-    constructor; cbn in *; rewrite ?Em in *; fin2.
+    constructor; prep; rewrite ?Em in *; fin2.
   - destruct (j =? length (txs data s)) eqn:Ej; [|discriminate]. apply Nat.eqb_eq in Ej.
     inversion E; subst s'. clear E.
-    constructor; cbn in *; rewrite ?Em in *; fin2.
+    constructor; prep; rewrite ?Em in *; fin2.
 Qed.
 
 Lemma safe_LsReacquire s s' : inv s -> safe s -> step s (LsReacquire data) = Some s' -> safe s'.
 Proof.
-  intros H Hs E. cbn in E. pose proof Hs as [K S W L T O N P F Q].
+  intros H Hs E. cbn in E. pose proof Hs as [K S W L T O N P F Q G Z].
   destruct (pc data s) as [| | | | | |m0 hg0 pre0 wn0| | | | | | | |] eqn:Epc; try discriminate.
   destruct (ls_mark data s) eqn:Em; [discriminate|].
   inversion E; subst s'. clear E.
-  destruct m0; constructor; cbn in *; rewrite ?Epc in *; cbn in *; fin2.
+  destruct m0; constructor; prep; fin2.
   intros A. destruct (S eq_refl). congruence.
 Qed.
 
@@ -641,7 +803,7 @@ Lemma safe_mid_fr s m hg pre wn n :
   inv s -> safe s -> pc data s = PCkpted m hg pre wn -> frb m = true -> ls_mark data s = Some n ->
   safe (set_pc data s (PMid m hg pre wn (mid_restarted midcheck m hg (gen data s)))).
 Proof.
-  intros H Hs Epc Hf Em. pose proof Hs as [K S W L T O N P F Q]. rewrite Epc in *.
+  intros H Hs Epc Hf Em. pose proof Hs as [K S W L T O N P F Q G Z]. rewrite Epc in *.
   destruct (T hg eq_refl) as [T1 _].
   assert (Hpend : pendingb (PCkpted m hg pre wn) = false) by (destruct m; try discriminate; reflexivity).
   assert (Hpend' : forall rb, pendingb (PMid m hg pre wn rb) = false) by (destruct m; try discriminate; reflexivity).
@@ -658,7 +820,7 @@ Proof.
   - intros _ _ _. destruct rb eqn:Er.
     + right. right. right. left. unfold freeb. cbn. rewrite Hf. reflexivity.
     + right. right. right. right. unfold postpendb, post_pending, needs_post. rewrite Hf. reflexivity.
-  - intros A. destruct (L A) as [B|[B|[B|B]]]; [auto|congruence|discriminate|].
+  - intros A. destruct (L A) as [B|[B|[B|B]]]; [auto|congruence|unfold freshlostb in B; rewrite Epc in B; discriminate|].
     right. right. right. cbn -[Nat.ltb] in B. rewrite Hf in B. cbn -[Nat.ltb] in B.
     rewrite B. apply Nat.ltb_lt in B. cbn. destruct (Hlost B) as [C|C]; rewrite C; [reflexivity|apply orb_true_r].
   - intros hg' A. inversion A; subst hg'. split; [exact T1|]. split; [destruct m; discriminate|exact Hrb].
@@ -667,63 +829,67 @@ Qed.
 
 Lemma safe_LsMid s s' : inv s -> safe s -> step s (LsMid data) = Some s' -> safe s'.
 Proof.
-  intros H Hs E. cbn in E. pose proof Hs as [K S W L T O N P F Q].
+  intros H Hs E. cbn in E. pose proof Hs as [K S W L T O N P F Q G Z].
   destruct (pc data s) as [| | | | | |m0 hg0 pre0 wn0| | | | | | | |] eqn:Epc; try discriminate.
   destruct (ls_mark data s) eqn:Em; [|discriminate].
   inversion E; subst s'. clear E.
   destruct m0.
   - unfold mid_restarted. cbn [frb]. rewrite andb_false_r. cbn [andb].
-    destruct (S eq_refl) as [S1 S2]. constructor; cbn in *; fin2.
+    destruct (S eq_refl) as [S1 S2]. constructor; prep; fin2.
   - eapply safe_mid_fr; eauto.
   - eapply safe_mid_fr; eauto.
   - unfold mid_restarted. cbn [frb]. rewrite andb_false_r. cbn [andb].
-    constructor; cbn in *; fin2.
+    constructor; prep; fin2.
 Qed.
 
 Lemma safe_unlock_post s m hg pre wn :
   inv s -> safe s -> pc data s = PPost m hg pre wn ->
   safe (set_pc data s (PUnlocked m hg pre wn (post_rb recheck hg (gen data s)))).
 Proof.
-  intros H Hs Epc. pose proof Hs as [K S W L T O N P F Q]. rewrite Epc in *.
+  intros H Hs Epc. pose proof Hs as [K S W L T O N P F Q G Z]. rewrite Epc in *.
   destruct (T hg eq_refl) as [T1 _]. pose proof (F m eq_refl) as Hf.
   unfold post_rb. destruct (recheck && negb (hg =? gen data s)) eqn:Erb.
   - apply andb_prop in Erb. destruct Erb as [Er Eg]. apply negb_true_iff in Eg. apply Nat.eqb_neq in Eg.
     constructor; cbn -[Nat.ltb]; rewrite ?Hf; cbn -[Nat.ltb]; triv.
     all: try solve [intros _ _ _; right; right; right; left; unfold freeb; cbn; rewrite Hf; reflexivity].
-    all: try solve [intros A; destruct (L A) as [B|[B|[B|B]]]; try discriminate; [auto|];
+    all: try solve [intros A; destruct (L A) as [B|[B|[B|B]]];
+                    [left; exact B|cbn in B; discriminate|unfold freshlostb in B; rewrite Epc in B; discriminate|];
                     right; right; right; cbn -[Nat.ltb] in B; apply andb_prop in B; destruct B as [_ B];
                     rewrite B; reflexivity].
     all: try solve [intros hg' A; inversion A; subst; split; [exact T1|]; split; [destruct m; discriminate|]; intros _; lia].
-    all: try solve [intros A; destruct (N A) as [B|[B|B]]; auto; discriminate].
+    all: try solve [intros A; destruct (N A) as [B|B]; auto; discriminate].
     all: try solve [intros A; specialize (P A); discriminate].
   - assert (Hc : recheck = false \/ gen data s = hg).
     { destruct recheck; [right|left; reflexivity]. cbn in Erb. apply negb_false_iff in Erb.
       apply Nat.eqb_eq in Erb. congruence. }
     constructor; cbn -[Nat.ltb]; rewrite ?Hf; cbn -[Nat.ltb]; triv.
     all: try solve [intros A B C; left; destruct Hc as [Hc|Hc];
-                    [destruct (K A B C) as [D|[D|[D|[D|D]]]]; try discriminate; [exact D|];
-                     unfold freeb in D; rewrite Hc in D; cbn in D; discriminate
+                    [destruct (K A B C) as [D|[D|[D|[D|D]]]];
+                     [exact D|cbn in D; discriminate|specialize (P D); discriminate
+                     |unfold freeb in D; rewrite Hc in D; cbn in D; discriminate
+                     |unfold weakb in D; rewrite Epc in D; cbn in D; discriminate]
                     |apply (Q eq_refl hg eq_refl Hc A B C)]].
-    all: try solve [intros A; destruct (L A) as [B|[B|[B|B]]]; try discriminate; [auto|];
+    all: try solve [intros A; destruct (L A) as [B|[B|[B|B]]];
+                    [left; exact B|cbn in B; discriminate|unfold freshlostb in B; rewrite Epc in B; discriminate|];
                     exfalso; cbn -[Nat.ltb] in B; apply andb_prop in B; destruct B as [B1 B2];
                     apply Nat.ltb_lt in B2; destruct Hc; [congruence|lia]].
     all: try solve [intros hg' A; inversion A; subst; split; [exact T1|]; split; [destruct m; discriminate|discriminate]].
-    all: try solve [intros A; destruct (N A) as [B|[B|B]]; auto; discriminate].
+    all: try solve [intros A; destruct (N A) as [B|B]; auto; discriminate].
     all: try solve [intros A; specialize (P A); discriminate].
 Qed.
 
 Lemma safe_LsUnlock s s' : inv s -> safe s -> step s (LsUnlock data) = Some s' -> safe s'.
 Proof.
-  intros H Hs E. cbn in E. pose proof Hs as [K S W L T O N P F Q].
+  intros H Hs E. cbn in E. pose proof Hs as [K S W L T O N P F Q G Z].
   destruct (pc data s) as [| | | | | | |m0 hg0 pre0 wn0 rb0|m1 hg1 pre1 wn1| | | | | |] eqn:Epc; try discriminate.
   - destruct (needs_post true m0 rb0) eqn:En; [discriminate|].
     inversion E; subst s'. clear E.
     unfold needs_post in En. cbn [andb] in En.
     destruct m0; cbn in En.
-    + destruct (S eq_refl) as [S1 S2]. constructor; cbn in *; fin2.
-    + apply negb_false_iff in En. subst rb0. constructor; cbn -[Nat.ltb] in *; fin2.
-    + apply negb_false_iff in En. subst rb0. constructor; cbn -[Nat.ltb] in *; fin2.
-    + constructor; cbn in *; fin2.
+    + destruct (S eq_refl) as [S1 S2]. constructor; prep; fin2.
+    + apply negb_false_iff in En. subst rb0. constructor; prep; fin2.
+    + apply negb_false_iff in En. subst rb0. constructor; prep; fin2.
+    + constructor; prep; fin2.
   - inversion E; subst s'. clear E. apply safe_unlock_post; assumption.
 Qed.
 
@@ -731,9 +897,13 @@ Lemma safe_bump_pc s1 m hg pre wn rb :
   safe s1 -> pc data s1 = PUnlocked m hg pre wn rb ->
   safe (set_pc data s1 (PBumped m hg pre wn rb)).
 Proof.
-  intros Hs Epc. pose proof Hs as [K S W L T O N P F Q]. rewrite Epc in *.
+  intros Hs Epc. pose proof Hs as [K S W L T O N P F Q G Z]. rewrite Epc in *.
   constructor; cbn -[Nat.ltb] in *; try assumption; triv.
   all: try solve [intros A; specialize (P A); discriminate].
+  - intros A B C. destruct (K A B C) as [D|[D|[D|[D|D]]]]; auto 6.
+    unfold weakb in D. rewrite Epc in D. cbn in D. discriminate.
+  - intros A. destruct (L A) as [D|[D|[D|D]]]; auto 6.
+    unfold freshlostb in D. rewrite Epc in D. cbn in D. discriminate.
 Qed.
 
 Lemma safe_LsBump s t r s' :
@@ -744,7 +914,9 @@ Proof.
   destruct (do_commit data s t r) as [s1|] eqn:Ed; [|discriminate].
   inversion E; subst s'. clear E.
   assert (Hs1 : safe s1).
-  { apply (safe_commit_same s t r s1 H Hs); [|exact Ed]. intros _. right. rewrite Epc. reflexivity. }
+  { apply (safe_commit_same s t r s1 H Hs); [|exact Ed]. intros _. split.
+    - right. rewrite Epc. reflexivity.
+    - unfold catching_up. rewrite Epc. cbn. rewrite andb_false_r. reflexivity. }
   destruct (do_commit_facts _ _ _ _ H Hs Ed) as [_ [_ [_ [_ [Hpc _]]]]].
   apply safe_bump_pc; [exact Hs1|congruence].
 Qed.
@@ -756,24 +928,24 @@ Lemma safe_cmp_plain s m hg pre wn rb p :
   (cur data s = Lost -> l0 data s = []) ->
   safe (set_pc data s p).
 Proof.
-  intros Hs Epc Hp HK HL. pose proof Hs as [K S W L T O N P F Q]. rewrite Epc in *.
+  intros Hs Epc Hp HK HL. pose proof Hs as [K S W L T O N P F Q G Z]. rewrite Epc in *.
   destruct Hp; subst p; constructor; cbn in *; triv; auto.
-  all: try solve [intros A; destruct (N A) as [B|[B|B]]; auto; discriminate].
+  all: try solve [intros A; destruct (N A) as [B|B]; auto; discriminate].
   all: try solve [intros A; specialize (P A); discriminate].
 Qed.
 
 Lemma safe_cmp_boundary s m hg pre wn rb :
   safe s -> pc data s = PBumped m hg pre wn rb -> safe (set_pc data s PBoundary).
 Proof.
-  intros Hs Epc. pose proof Hs as [K S W L T O N P F Q]. rewrite Epc in *.
+  intros Hs Epc. pose proof Hs as [K S W L T O N P F Q G Z]. rewrite Epc in *.
   constructor; cbn in *; triv; auto.
-  all: try solve [intros A; destruct (N A) as [B|[B|B]]; auto; discriminate].
+  all: try solve [intros A; destruct (N A) as [B|B]; auto; discriminate].
   all: try solve [intros A; specialize (P A); discriminate].
 Qed.
 
 Lemma safe_LsCmpHdr s s' : inv s -> safe s -> step s (LsCmpHdr data) = Some s' -> safe s'.
 Proof.
-  intros H Hs E. cbn in E. pose proof Hs as [K S W L T O N P F Q].
+  intros H Hs E. cbn in E. pose proof Hs as [K S W L T O N P F Q G Z].
   destruct (pc data s) as [| | | | | | | | | |m hg pre wn rb| | | |] eqn:Epc; try discriminate.
   destruct (T hg eq_refl) as [T1 [T2 T3]].
   assert (Hfree : freeb (PBumped m hg pre wn rb) = true -> frb m = true /\ rb = true).
@@ -787,10 +959,12 @@ Proof.
     apply Nat.eqb_eq in Eg. inversion E; subst s'. clear E.
     eapply safe_cmp_plain; eauto.
     + intros A B C. destruct (K A B C) as [D|[D|[D|[D|D]]]];
-        [exact D| |cbn in D; discriminate| |cbn in D; discriminate].
+        [exact D| |specialize (P D); discriminate|
+         |unfold weakb in D; rewrite Epc in D; cbn in D; discriminate].
       * exfalso. cbn in D. destruct m; try discriminate. specialize (T2 eq_refl). lia.
       * exfalso. destruct (Hfree D) as [_ D2]. specialize (T3 D2). lia.
-    + intros A. destruct (L A) as [D|[D|[D|D]]]; [exact D| |cbn in D; discriminate|].
+    + intros A. destruct (L A) as [D|[D|[D|D]]];
+        [exact D| |unfold freshlostb in D; rewrite Epc in D; cbn in D; discriminate|].
       * exfalso. cbn in D. destruct m; try discriminate. specialize (T2 eq_refl). lia.
       * exfalso. destruct (Hlok _ D) as [_ [_ D3]]. lia.
   - assert (Hplain : rb = false \/ frb m = false ->
@@ -798,9 +972,11 @@ Proof.
     { intros Hc. destruct (pendingb (PBumped m hg pre wn rb)) eqn:Ep; [auto|]. left.
       eapply safe_cmp_plain; eauto.
       - intros A B C. destruct (K A B C) as [D|[D|[D|[D|D]]]];
-          [exact D|discriminate|cbn in D; discriminate| |cbn in D; discriminate].
+          [exact D|discriminate|specialize (P D); discriminate|
+           |unfold weakb in D; rewrite Epc in D; cbn in D; discriminate].
         exfalso. destruct (Hfree D) as [D1 D2]. destruct Hc; congruence.
-      - intros A. destruct (L A) as [D|[D|[D|D]]]; [exact D|discriminate|cbn in D; discriminate|].
+      - intros A. destruct (L A) as [D|[D|[D|D]]];
+          [exact D|discriminate|unfold freshlostb in D; rewrite Epc in D; cbn in D; discriminate|].
         exfalso. destruct (Hlok _ D) as [D1 [D2 _]]. destruct Hc; congruence. }
     destruct m.
     + inversion E; subst s'. clear E. destruct Hplain as [A|A]; [right; reflexivity|exact A|discriminate].
@@ -817,21 +993,74 @@ Qed.
 
 Lemma safe_LsBoundarySnap s s' : inv s -> safe s -> step s (LsBoundarySnap data) = Some s' -> safe s'.
 Proof.
-  intros H Hs E. cbn in E. pose proof Hs as [K S W L T O N P F Q].
+  intros H Hs E. cbn in E. pose proof Hs as [K S W L T O N P F Q G Z].
   destruct (pc data s) eqn:Epc; try discriminate. destruct (phys data s) eqn:Ep; [discriminate|].
+  destruct (opened data s) eqn:Eo; [|discriminate].
   inversion E; subst s'. clear E.
-  constructor; cbn; triv.
-  all: try solve [intros A; destruct (N A) as [B|[B|B]]; auto; discriminate].
+  constructor; cbn; rewrite ?Eo; triv.
+  all: try solve [intros A; destruct (N A) as [B|B]; auto; discriminate].
   all: try solve [intros A; specialize (P A); congruence].
-  intros _ _ _. left. unfold at_end. cbn. auto.
+  all: try solve [intros _ _ _; left; unfold at_end; cbn; auto].
+  all: try solve [unfold lastoff, flag; cbn; intros A; rewrite A, Ep; reflexivity].
+Qed.
+
+(** Close, or the death of the process: the next session starts from the files *)
+Lemma safe_closed s :
+  safe s -> (cur data s = Lost -> l0 data s = [] \/ cgen data s <> gen data s) ->
+  safe (set_closed data s).
+Proof.
+  intros Hs HJ. pose proof Hs as [K S W L T O N P F Q G Z].
+  constructor; unfold freshlostb, weakb, lastoff, flag, openmark; cbn; triv; auto 6.
+  intros A. destruct (HJ A) as [B|B]; [left; exact B|].
+  right. right. left. apply negb_true_iff. apply Nat.eqb_neq. exact B.
 Qed.
 
 Lemma safe_LsClose s s' : inv s -> safe s -> step s (LsClose data) = Some s' -> safe s'.
 Proof.
-  intros H Hs E. cbn in E. pose proof Hs as [K S W L T O N P F Q].
+  intros H Hs E. cbn in E. pose proof Hs as [K S W L T O N P F Q G Z].
   destruct (pc data s) eqn:Epc; try discriminate. destruct (opened data s) eqn:Eo; [|discriminate].
-  inversion E; subst s'. clear E.
-  constructor; cbn; triv; auto 6.
+  inversion E; subst s'. clear E. apply safe_closed; [exact Hs|].
+  intros A. destruct (L A) as [B|[B|[B|B]]]; [left; exact B|discriminate| |discriminate].
+  right. unfold freshlostb in B. apply andb_prop in B. destruct B as [_ B].
+  apply negb_true_iff in B. apply Nat.eqb_neq. exact B.
+Qed.
+
+Lemma safe_LsKill s s' :
+  inv s -> safe s -> window_ok data true recheck s (LsKill data) = true ->
+  step s (LsKill data) = Some s' -> safe s'.
+Proof.
+  intros H Hs Hwin E. cbn in E. destruct (opened data s); [|discriminate].
+  inversion E; subst s'. clear E. apply safe_closed; [exact Hs|].
+  intros A. cbn in Hwin. unfold kill_ok in Hwin. rewrite A in Hwin.
+  destruct (l0 data s); [left; reflexivity|right].
+  apply negb_true_iff in Hwin. apply Nat.eqb_neq. exact Hwin.
+Qed.
+
+(** snapshots touch neither the environment nor the cursor *)
+Lemma safe_snap_frame s x : safe s -> safe (set_snap data s x).
+Proof.
+  intros Hs. pose proof Hs as [K S W L T O N P F Q G Z].
+  constructor; unfold freshlostb, weakb, lastoff, flag, openmark in *; cbn; assumption.
+Qed.
+Lemma safe_add_snap s x : safe s -> safe (add_snap data s x).
+Proof.
+  intros Hs. pose proof Hs as [K S W L T O N P F Q G Z].
+  constructor; unfold freshlostb, weakb, lastoff, flag, openmark in *; cbn; assumption.
+Qed.
+
+Lemma safe_LsSnapPos s g s' : safe s -> step s (LsSnapPos data g) = Some s' -> safe s'.
+Proof.
+  intros Hs E. cbn in E. destruct (pc data s); try discriminate. destruct (l0 data s); [discriminate|].
+  destruct (snap data s); [discriminate|]. destruct (opened data s); [|discriminate].
+  inversion E; subst. apply safe_snap_frame. exact Hs.
+Qed.
+
+Lemma safe_LsSnapRead s s' : safe s -> step s (LsSnapRead data) = Some s' -> safe s'.
+Proof.
+  intros Hs E. cbn in E. destruct (snap data s) as [[[[p we] sc] sg]|]; [|discriminate].
+  destruct (phys data s); [discriminate|]. destruct (opened data s); [|discriminate].
+  destruct (snap_idx data (txs data s) we); [|discriminate].
+  inversion E; subst. apply safe_add_snap, safe_snap_frame. exact Hs.
 Qed.
 
 (** ** every step preserves [safe] (control flow with both fixes) *)
@@ -857,13 +1086,20 @@ Proof.
   - eapply safe_LsCmpHdr; eauto.
   - eapply safe_LsBoundarySnap; eauto.
   - eapply safe_LsClose; eauto.
+  - eapply safe_LsKill; eauto.
+  - eapply safe_LsSnapPos; eauto.
+  - eapply safe_LsSnapRead; eauto.
+  - cbn in Hwin. discriminate.
 Qed.
 
 Lemma init_safe s : init_ok data zero lock s -> safe s.
 Proof.
-  intros [H1 [H2 [H3 [H4 [H5 [H6 [H7 [H8 [H9 [H10 [H11 H12]]]]]]]]]]].
-  constructor; rewrite ?H10; cbn; triv; auto.
-  intros _ _ _. left. left. exact H9.
+  intros [H1 [H2 [H3 [H4 [H5 [H6 [H7 [H8 [H9 [H10 [H11 [H12 [H13 [H14 H15]]]]]]]]]]]]]].
+  constructor; unfold freshlostb, weakb, lastoff, flag, openmark; rewrite ?H10, ?H13; cbn; triv; auto.
+  all: try solve [intros _ _ _; left; left; exact H9].
+  all: try solve [intros _; left; exact H9].
+  all: try solve [intros _; auto].
+  all: try solve [rewrite H12 in *; lia].
 Qed.
 
 End Safe.
